@@ -189,6 +189,10 @@ struct qb_ipcs_connection {
 	int32_t fc_enabled;
 	int32_t poll_events;
 	int32_t outstanding_notifiers;
+	/* connection_closed() asked to be called again and the job is queued */
+	int32_t closed_retry_pending;
+	/* connection_closed() returned 0 and the initial reference is gone */
+	int32_t closed_finished;
 	char description[CONNECTION_DESCRIPTION];
 	struct qb_ipcs_connection_stats_2 stats;
 };
